@@ -65,7 +65,10 @@ def _run_variant(args):
     try:
         repo = Repo(repo_root, overlay)
         ctx = Ctx(prop, repo, "quick", 0, quiet=True)
-        mod.run(ctx)
+        try:
+            mod.run(ctx)
+        except AnalysisError as e:
+            ctx.soft_fail(str(e))
         ctx.end_of_run()
         keys = _viol_keys(ctx)
     except AnalysisError as e:
